@@ -23,10 +23,61 @@ Record response := {
   r_data : option string
 }.
 
-(* The variants of cosmwasm_std::CosmosMsg under the features the harness builds with
-   (staking, stargate, cosmwasm_2_0) - a dependency, assumed; validated by the L3 correspondence. *)
-Definition cosmos_variants : list string :=
-  ["Bank"; "Custom"; "Staking"; "Distribution"; "Stargate"; "Any"; "Ibc"; "Wasm"; "Gov"].
+(* The variants of cosmwasm_std::CosmosMsg: regenerated from the source of the pinned cosmwasm-std (GenLib), each with
+   the cosmwasm-std features that define it. *)
+Definition cosmos_variants : list string := map fst cosmos_variant_features.
+
+(* ---- cargo features. A build chooses a set of sylvia features (any subset of sylvia/Cargo.toml's [features]); a
+   feature implies others and enables cosmwasm-std features (the regenerated table `sylvia_features`). It is assumed
+   that cosmwasm-std's features are enabled through sylvia's only. *)
+Definition feature_names : list string := map fst sylvia_features.
+Definition memb (x : string) (l : list string) : bool := existsb (String.eqb x) l.
+
+Definition implied_by (f : string) : list string :=
+  match lookup f sylvia_features with Some (imp, _) => imp | None => [] end.
+Definition forwards (f : string) : list string :=
+  match lookup f sylvia_features with Some (_, fwd) => fwd | None => [] end.
+
+Fixpoint add_new (xs acc : list string) : list string :=
+  match xs with
+  | [] => acc
+  | x :: r => if memb x acc then add_new r acc else add_new r (acc ++ [x])
+  end.
+Fixpoint close (n : nat) (F : list string) : list string :=
+  match n with
+  | 0 => F
+  | S n' => close n' (add_new (flat_map implied_by F) F)
+  end.
+(* every chain of implications is shorter than the number of features *)
+Definition enabled (F : list string) : list string := close (length sylvia_features) F.
+Definition std_enabled (F : list string) : list string := flat_map forwards (enabled F).
+
+(* the variant exists in cosmwasm-std given the enabled cosmwasm-std features S / the arm exists in sylvia given the
+   enabled sylvia features E *)
+Definition variant_in (S : list string) (v : string) : bool :=
+  match lookup v cosmos_variant_features with
+  | Some fs => forallb (fun f => memb f S) fs
+  | None => false
+  end.
+Definition arm_in (E : list string) (v : string) : bool :=
+  match lookup v into_msg_arm_features with
+  | Some fs => forallb (fun f => memb f E) fs
+  | None => false
+  end.
+Definition variant_present (F : list string) (v : string) : bool := variant_in (std_enabled F) v.
+Definition arm_present (F : list string) (v : string) : bool := arm_in (enabled F) v.
+Definition features_agree (F : list string) : bool :=
+  let E := enabled F in
+  let S := flat_map forwards E in
+  forallb (fun v => Bool.eqb (variant_in S v) (arm_in E v)) cosmos_variants.
+
+(* all subsets of a list, as sublists *)
+Fixpoint sublists {A} (l : list A) : list (list A) :=
+  match l with
+  | [] => [[]]
+  | x :: r => let s := sublists r in map (cons x) s ++ s
+  end.
+
 Definition is_custom (m : cosmos_msg) : bool := cm_variant m =? "Custom".
 
 Inductive lib_err := ErrCustomMsg | ErrUnknownVariant (v : string).
